@@ -344,3 +344,43 @@ func vh_C09_Invoke() {
 	vfAssert("second-callee", got2 == x)
 	vfReach("end")
 }
+
+// two panicking jobs in one run (in a row or around a normal job): each is reported once, the pool survives both, every
+// accepted job still runs exactly once and a job scheduled afterwards is served
+func vh_C09_TwoPanics() {
+	vfSetMapOrder(2)
+	l := &c09Log{started: map[int]int{}}
+	max := vfRange("max", 1, 2)
+	standby := vfRange("standby", 0, 1)
+	p := c09Pool(l, max, standby, 2, 1)
+	pattern := vfChoose("pattern", 3) // which of the three jobs panic: 0,1 / 0,2 / 1,2
+	panics := [][]bool{{true, true, false}, {true, false, true}, {false, true, true}}[pattern]
+	slowFirst := vfChoose("first-panic-late", 2) == 1
+	accepted := make([]bool, 3)
+	for i := 0; i < 3; i++ {
+		err := p.Schedule(l.job(i, panics[i], slowFirst && panics[i] && (i == 0 || !panics[0])))
+		vfAssert("schedule-error-kind", err == nil || err == ErrWorkerPoolJobQueueIsFull)
+		accepted[i] = err == nil
+	}
+	vfQuiesce()
+	want := 0
+	for i := 0; i < 3; i++ {
+		if accepted[i] {
+			vfAssert("accepted-job-ran-exactly-once", l.started[i] == 1)
+			if panics[i] {
+				want++
+			}
+		} else {
+			vfAssert("rejected-job-never-ran", l.started[i] == 0)
+		}
+	}
+	vfAssert("never-more-than-maximum-running", l.maxRunning <= max)
+	vfAssert("panic-reported-once", len(l.handled) == want)
+	vfAssert("pool-still-open", !p.IsClosed())
+	err := p.Schedule(l.job(3, false, false))
+	vfQuiesce()
+	if err == nil {
+		vfAssert("later-job-ran", l.started[3] == 1)
+	}
+	vfReach("end")
+}
